@@ -109,12 +109,12 @@ def _entry(a):
     return sh.result()
 
 
-def run_shards(ctx, worker, nshards, exes, payload=None, procs=16):
-    args = [(worker, ctx.prop, ctx.tier, ctx.seed, i, nshards, exes, payload) for i in range(nshards)]
-    if nshards == 1 or procs == 1:
+def run_shards(ctx, worker, nshards, exes, payload=None, procs=16, only=None):
+    args = [(worker, ctx.prop, ctx.tier, ctx.seed, i, nshards, exes, payload) for i in range(nshards) if only is None or i in only]
+    if len(args) == 1 or procs == 1:
         results = [_entry(a) for a in args]
     else:
-        with mp.get_context('fork').Pool(min(procs, nshards)) as pool:
+        with mp.get_context('fork').Pool(min(procs, len(args))) as pool:
             results = pool.map(_entry, args, chunksize=1)
     errs = []
     for r in results:
